@@ -186,6 +186,8 @@ class C02(Check):
     # -------------------------------------------------------------- execute
     def execute(self, case):
         log = core.EventLog()
+        imgsim.fi()
+        imgsim.set_hash_salt(case.get('content') or case)
         self.stats = {'faults': {}, 'probes': {}, 'families': {}, 'sim': {},
                       'distinct': []}
         self.viols = []
